@@ -104,10 +104,12 @@ def run_transform(P, method="linear", target=None, target_data="given", target_d
 
     def m_lin(ev, args, kw, node):
         calls.append(("linear", list(args), dict(kw)))
+        ev.events.append(("interp-call", "linear", list(args), dict(kw)))
         return Obj("DataArray", "LINEAR-RESULT")
 
     def m_cons(ev, args, kw, node):
         calls.append(("conservative", list(args), dict(kw)))
+        ev.events.append(("interp-call", "conservative", list(args), dict(kw)))
         return Obj("DataArray", "CONSERVATIVE-RESULT")
 
     def m_xr_da(ev, args, kw, node):
@@ -134,7 +136,8 @@ def run_transform(P, method="linear", target=None, target_data="given", target_d
         td = None
         if target_data == "given":
             td = make_da("td", td_dims or [Sym("t"), dimsym("AZ", "center")], name=td_name)
-        tg = target if target is not None else make_da("target", [Sym("lev")])
+        # the target carries a dimension coordinate whose labels are not its values (level numbers, say)
+        tg = target if target is not None else make_da("target", [Sym("lev")], coords={Sym("lev"): (Sym("lev"),)})
         b = dict(grid=g, axis_name=Sym("AZ"), da=da, target=tg, target_data=td, target_dim=target_dim, method=method, mask_edges=Sym("U_MASK"), bypass_checks=Sym("U_BYPASS"), suffix=Sym("U_SUFFIX"))
         b.update(opts)
         for k in [k for k, v in b.items() if v is OMIT]:
@@ -166,8 +169,12 @@ def _threading(ctx, P):
             ctx.unknown("R08.1", inst, str(e))
             continue
         bad = None
-        if len(calls) != 1 or any(o.kind != "return" for o in outs):
-            bad = "the interpolation wrapper is not called exactly once"
+        per_path = [[e[1:] for e in o.events if e[0] == "interp-call"] for o in outs]
+        if any(o.kind != "return" for o in outs):
+            o = [o for o in outs if o.kind != "return"][0]
+            bad = f"a plain call raises {o.value}"
+        elif any(len(c) != 1 for c in per_path):
+            bad = "the interpolation wrapper is not called exactly once on every path"
         elif any(isinstance(o.value, Obj) and foreign_ops(o.value.eff)[1] for o in outs):
             ctx.unknown("R08.1", inst, f"operation(s) {foreign_ops(outs[0].value.eff)[1]} on what transform() returns")
             continue
@@ -175,9 +182,9 @@ def _threading(ctx, P):
             o = outs[0]
             bad = f"transform() returns {o.value!r} (operations {[e[0] for e in o.value.eff] if isinstance(o.value, Obj) else '?'}): the interpolated values are altered after the interpolation"
         else:
-            kind, a, kw = calls[0]
+          for (kind, a, kw), in per_path:
             if kw.get("suffix") != Sym("U_SUFFIX"):
-                bad = "the `suffix` option never reaches the wrapper that names the result (the result keeps the bare input name)"
+                bad = bad or "the `suffix` option never reaches the wrapper that names the result (the result keeps the bare input name)"
             if method != "conservative":
                 if kind != "linear":
                     bad = bad or "linear/log method does not use the linear interpolation"
@@ -192,6 +199,14 @@ def _threading(ctx, P):
                     bad = bad or f"arguments {names}, dims {a[3:6]!r}; expected (da, target_data, target, axis dim, axis dim, target dim)"
             elif kind != "conservative":
                 bad = bad or "conservative method does not use the conservative interpolation"
+            # data, target_data and target reach the interpolation as the caller gave them: a selection / cast / arithmetic on
+            # the way hands over other values (target[<its dimension>] is the coordinate's labels, not the target)
+            for role, x in zip(("da", "target_data", "target"), a[:3]):
+                if isinstance(x, Obj) and x.name in ("da", "td", "target"):
+                    changing, unknown_ops = foreign_ops(x.eff)
+                    if changing:
+                        what = f"{role}[{x.eff[0][1]!r}]" if x.eff and x.eff[0][0] == "getitem" else f"{role} after {changing}"
+                        bad = bad or f"the interpolation receives {what} instead of the caller's `{role}`: other values are interpolated" + (" (the labels of the dimension coordinate instead of the target levels)" if role == "target" and x.eff[0][0] == "getitem" else "")
         if bad:
             ctx.report("R08.1", tfi, inst, bad)
         else:
@@ -431,7 +446,7 @@ def _log(ctx, P):
             calls.append(list(args))
             return Obj("ndarray", "OUT")
 
-        ev = Evaluator(P, models={"transform:_interp_1d_linear": m_k})
+        ev = Evaluator(P, models={"transform:_interp_1d_linear": m_k}, attr_models={("ndarray", "shape"): lambda ev_, o_, n_: Sym("shape_of_" + o_.name)})
         inst = f"interp_1d_linear(logarithmic={logarithmic}, bypass_checks={bypass!r})"
         try:
             outs = ev.run_paths(fi, lambda: dict(phi=Obj("ndarray", "phi"), theta=Obj("ndarray", "theta"), target_theta_levels=Obj("ndarray", "levels"), mask_edges=Sym("M"), bypass_checks=bypass, logarithmic=logarithmic))
@@ -441,30 +456,85 @@ def _log(ctx, P):
         bad = None
         if len(calls) != len(outs) or any(o.kind != "return" for o in outs) or not calls:
             bad = "the kernel is not called exactly once per path"
-        for call in calls:
+        for call, o in zip(calls, outs):
             phi, theta, lev, m, b = call[:5]
 
+            def strip(x):
+                """np.asarray(x) and friends hand the same values on."""
+                while isinstance(x, Obj) and x.kind == "ext" and x.name in ("numpy.asarray", "numpy.asanyarray", "numpy.ascontiguousarray", "numpy.atleast_1d") and len(x.eff) == 1 and len(x.eff[0][1]) == 1:
+                    x = x.eff[0][1][0]
+                return x
+
             def logged(x, name):
+                x = strip(x)
                 if isinstance(x, Obj) and x.kind == "ext" and x.name == "numpy.log":
                     a = x.eff[0][1]
-                    return len(a) == 1 and isinstance(a[0], Obj) and a[0].name == name and not a[0].eff
+                    return len(a) == 1 and plain(a[0], name) and len(x.eff) == 1
                 return False
 
             def plain(x, name):
+                x = strip(x)
                 return isinstance(x, Obj) and x.name == name and not x.eff
 
+            lev_ok = (logged(lev, "levels") if logarithmic else plain(lev, "levels"))
+            out_ok = isinstance(o.value, Obj) and o.value.name == "OUT" and not o.value.eff
+            order_problem = None
+            if not (lev_ok and out_ok):
+                # the levels are re-arranged on the way in and / or the result on the way out: decide on representative level
+                # vectors (every order of distinct levels, ties) whether each result ends up at the place of its level
+                try:
+                    order_problem = _levels_in_any_order(lev, o.value, logarithmic)
+                    if order_problem is None:
+                        lev_ok = out_ok = True
+                    elif order_problem.startswith("LEVELS:"):
+                        order_problem = None if not lev_ok else order_problem[7:]  # other levels: the messages below say which transformation is missing / extra
+                except Unmodelled:
+                    order_problem = None  # not a re-arrangement this evaluation can follow: judged by the lineage alone
             if not plain(phi, "phi"):
                 bad = "phi is transformed before interpolation"
-            elif logarithmic and not (logged(theta, "theta") and logged(lev, "levels")):
+            elif order_problem:
+                bad = order_problem
+            elif logarithmic and not (logged(theta, "theta") and lev_ok):
                 bad = "with method 'log' the logarithm must be applied to theta AND to the target levels (" + ("theta only" if logged(theta, "theta") else "levels only" if logged(lev, "levels") else "neither") + " is)"
-            elif not logarithmic and not (plain(theta, "theta") and plain(lev, "levels")):
+            elif not logarithmic and not (plain(theta, "theta") and lev_ok):
                 bad = "without `logarithmic` theta / levels are transformed"
+            elif not out_ok:
+                bad = f"the kernel's result is not returned as it is ({o.value!r})"
             elif m != Sym("M") or b is not bypass and b != bypass or type(b) is not type(bypass):
                 bad = f"mask_edges / bypass_checks are not handed to the per-column kernel unchanged (bypass_checks={b!r} for {bypass!r}): the direction of each column must be tested inside the kernel, column by column"
         if bad:
             ctx.report("R08.2", fi, inst, bad)
         else:
             ctx.ok("R08.2", inst, "log of theta and levels together" if logarithmic else "no transformation")
+
+
+LEVEL_VECTORS = [[11.0, 4.5, 19.0, 30.0, 8.75], [1.0, 2.0, 3.0], [3.0, 2.0, 1.0], [2.0, 3.0, 1.0], [3.0, 1.0, 2.0], [1.0, 3.0, 2.0], [2.0, 1.0, 3.0], [2.0, 2.0, 1.0], [5.0]]
+
+
+def _levels_in_any_order(lev_arg, result, logarithmic):
+    """Concrete evaluation (sa.concrete) of what the kernel is asked for and of what is returned, on representative level
+    vectors: the kernel stands for any function of the level alone, so result i must be the kernel's answer for level i."""
+    import math
+
+    from ..concrete import value
+
+    for levels in LEVEL_VECTORS:
+        want_levels = [math.log(x) for x in levels] if logarithmic else list(levels)
+        try:
+            asked = value(lev_arg, {"levels": levels})
+            if not isinstance(asked, list) or sorted(asked) != sorted(want_levels):
+                return f"LEVELS:for the levels {levels} the kernel is asked for {asked!r}" + (" (logarithms expected)" if logarithmic else "") + ": other levels than the caller's are interpolated"
+            answer = lambda x: 1000.0 * x + 7.0  # stands for any injective function of the level
+            got = value(result, {"levels": levels, "OUT": [answer(x) for x in asked]})
+        except Unmodelled as e:
+            raise Unmodelled(f"order of the levels: {e}")
+        except (IndexError, TypeError, ValueError) as e:
+            return f"for the levels {levels} re-arranging the result fails ({type(e).__name__})"
+        if got != [answer(x) for x in want_levels]:
+            where = [i for i, (g, w) in enumerate(zip(got, [answer(x) for x in want_levels])) if g != w] if isinstance(got, list) and len(got) == len(levels) else "all"
+            return (f"target levels in arbitrary order: for the levels {levels} the kernel is asked for {asked} and its answers are returned in an order in which position(s) {where} "
+                    "hold the value of another level (the permutation is not undone)")
+    return None
 
 
 def _naming(ctx, P):
